@@ -20,7 +20,7 @@
 //@ rwall R11 re⟦\btarget\.is_absolute\(\)⟧ => ⟦target.is_absolute2()⟧
 // R10 (unit-wide): the crate macro unwrap_or_false!(e) is `match e { Ok(v) => v, Err(_) => return false }` (src/core/result.rs:18; ASSUMED[macro-unwrap-or-false]: transcribed, not re-extracted)
 // R1 (unit-wide): `a != b` / `a == b` on path fields and locals of the entry builders
-//@ rwall R1 re⟦\b(self\.alt|self\.path|this\.alt|this\.path|dir|link|target) != (&?\w+(?:\.\w+)*)⟧ => ⟦\1.ne_p(\2)⟧
+//@ rwall R1 re⟦\b(self\.alt|self\.path|this\.alt|this\.path|dir|link|target) != &?(\w+(?:\.\w+)*)⟧ => ⟦\1.ne_p(&\2)⟧
 //@ rwall R10 re⟦unwrap_or_false!\(((?:[^()]|\([^()]*\))*)\)⟧ => ⟦match \1 { Ok(v) => v, Err(_) => return false }⟧
 
 // ---- assumed contracts of the layers below (each is proved against the real body in its own unit)
@@ -37,9 +37,9 @@ pub fn _abs<T: PathArg>(guard: &MemfsGuard, path: T) -> (r: RvResult<PathBuf>)
 pub uninterp spec fn spec_relative(p: Comps, base: Comps) -> Comps;
 impl PathBuf {
     #[verifier::external_body]
-    pub fn relative(&self, base: PathBuf) -> (r: RvResult<PathBuf>)
-        ensures r is Ok, r->Ok_0.comps() == spec_relative(self.comps(), base.comps()),
-                base.abs_clean() ==> r->Ok_0.comps() == spec_relative(self.comps(), abs_comps(base@)),   // by ax_abs
+    pub fn relative<T: PathArg>(&self, base: T) -> (r: RvResult<PathBuf>)
+        ensures r is Ok, r->Ok_0.comps() == spec_relative(self.comps(), base.pc()),
+                base.pok() ==> r->Ok_0.comps() == spec_relative(self.comps(), abs_comps(base.pv())),   // by ax_abs
     { unimplemented!() }
     // PathExt::mash of an absolute clean dir with a relative/absolute path (proved in unit path_helpers at component level)
     pub uninterp spec fn spec_mash(d: Comps, p: Comps) -> Comps;
